@@ -1201,6 +1201,8 @@ impl<'a> AnalyzeContext<'a, '_> {
     /// variable x: std_logic_vector(2 downto 0);
     /// x'subtype -> std_logic_vector(2 downto 0)
     /// x'element -> std_logic
+    /// subtype s is integer range 0 to 3;
+    /// s'base -> integer
     /// ```
     fn resolve_type_attribute_suffix(
         &self,
@@ -1212,7 +1214,7 @@ impl<'a> AnalyzeContext<'a, '_> {
     ) -> EvalResult<TypeEnt<'a>> {
         let typ = match prefix {
             ResolvedName::Type(typ) => {
-                if *suffix == TypeAttribute::Element {
+                if matches!(suffix, TypeAttribute::Element | TypeAttribute::Base) {
                     *typ
                 } else {
                     let diag = Diagnostic::illegal_attribute(
@@ -1226,7 +1228,7 @@ impl<'a> AnalyzeContext<'a, '_> {
                     bail!(diagnostics, diag);
                 }
             }
-            ResolvedName::ObjectName(obj) => obj.type_mark(),
+            ResolvedName::ObjectName(obj) if *suffix != TypeAttribute::Base => obj.type_mark(),
             other => {
                 let diag = Diagnostic::mismatched_kinds(
                     pos.pos(self.ctx),
@@ -1250,10 +1252,49 @@ impl<'a> AnalyzeContext<'a, '_> {
                     bail!(diagnostics, diag);
                 }
             }
+            TypeAttribute::Base => Ok(typ.base().into()),
         }
     }
 
+    /// LRM 16.2.2: T'BASE is allowed only as the prefix of the name of another attribute
+    fn check_base_attribute_is_prefix(
+        &self,
+        name_pos: TokenSpan,
+        name: &Name,
+        diagnostics: &mut dyn DiagnosticHandler,
+    ) -> EvalResult {
+        if let Name::Attribute(attr) = name {
+            if attr.attr.item == AttributeDesignator::Type(TypeAttribute::Base) {
+                bail!(
+                    diagnostics,
+                    Diagnostic::illegal_attribute(
+                        name_pos.pos(self.ctx),
+                        format!(
+                            "The {} attribute can only be used as the prefix of another attribute",
+                            attr.attr.item
+                        ),
+                    )
+                );
+            }
+        }
+        Ok(())
+    }
+
     pub fn name_resolve(
+        &self,
+        scope: &Scope<'a>,
+        name_pos: TokenSpan,
+        name: &mut Name,
+        diagnostics: &mut dyn DiagnosticHandler,
+    ) -> EvalResult<ResolvedName<'a>> {
+        let resolved = self.name_resolve_attr_prefix(scope, name_pos, name, diagnostics)?;
+        self.check_base_attribute_is_prefix(name_pos, name, diagnostics)?;
+        Ok(resolved)
+    }
+
+    /// Resolves a name that is the prefix of an attribute name
+    /// when the attribute itself is analyzed separately, such as for a range attribute
+    pub fn name_resolve_attr_prefix(
         &self,
         scope: &Scope<'a>,
         name_pos: TokenSpan,
@@ -1343,6 +1384,9 @@ impl<'a> AnalyzeContext<'a, '_> {
                     true,
                     diagnostics,
                 )?;
+                if !matches!(s, Suffix::Attribute(_)) {
+                    self.check_base_attribute_is_prefix(p.span, &p.item, diagnostics)?;
+                }
                 prefix = p;
                 suffix = s;
                 resolved
@@ -2312,6 +2356,26 @@ variable x: integer;
             )
             .related(integer_pos, "Defined here")],
         )
+    }
+
+    #[test]
+    fn base_attribute_of_subtype() {
+        let test = TestSetup::new();
+        test.declarative_part(
+            "
+subtype sub_t is integer range 1 to 3;
+        ",
+        );
+        assert_eq!(
+            test.name_resolve(&test.snippet("sub_t'base"), None, &mut NoDiagnostics),
+            Ok(ResolvedName::Type(test.lookup_type("integer")))
+        );
+        assert_eq!(
+            test.name_resolve(&test.snippet("natural'base'left"), None, &mut NoDiagnostics),
+            Ok(ResolvedName::Expression(DisambiguatedType::Unambiguous(
+                test.lookup_type("integer")
+            )))
+        );
     }
 
     #[test]
